@@ -189,6 +189,30 @@ func (c *Chain) onEpochBoundary(ended common.Epoch) {
 		}
 	}
 	c.Stats.Max("max_activation_queue", pend)
+	{
+		// waiting validators whose eligibility epoch is reached: more than 12, eligibility epochs not monotone in index
+		// order, and finality already beyond the lowest of them (so the churn-limited dequeuing has to break ties by index)
+		var keys []common.Epoch
+		for i := range flats {
+			f := &flats[i]
+			if f.ActivationEpoch == common.Epoch(FarFuture) && f.ActivationEligibilityEpoch <= cur {
+				keys = append(keys, f.ActivationEligibilityEpoch)
+			}
+		}
+		mono := true
+		lowest := common.Epoch(FarFuture)
+		for i, k := range keys {
+			if i > 0 && k < keys[i-1] {
+				mono = false
+			}
+			if k < lowest {
+				lowest = k
+			}
+		}
+		if len(keys) > 12 && !mono && fin.Epoch >= lowest {
+			c.Stats.Inc("activation_queue_over_12_non_monotone")
+		}
+	}
 	// sync committee rotation
 	if ss, ok := st.(common.SyncCommitteeBeaconState); ok {
 		nv, _ := ss.NextSyncCommittee()
